@@ -119,4 +119,71 @@ SPEC = {
             "bound_sharp": {"params": {"param": R, "pos": R, "neg": R, "max": "opt real", "min": "opt real"}},
         },
     },
+    # ---- sites: expressions inside methods (harness/sites.py) ---------------------------------
+    "SynapseSites": {
+        "sites": {
+            "SingleExponentialCurrent_current": {
+                "file": "inferno/neural/synapses/expcurrent.py", "cls": "SingleExponentialCurrent", "method": "forward",
+                "target": "self.current",
+                "rename": {"self.current": "current", "self.dt": "dt", "self.time_constant": "time_constant",
+                           "self.spike_charge": "spike_charge", "inputs[0]": "x"},
+                "params": {"current": R, "dt": R, "time_constant": R, "spike_charge": R, "x": R}},
+            "DoubleExponentialCurrent_pos_current": {
+                "file": "inferno/neural/synapses/expcurrent.py", "cls": "DoubleExponentialCurrent", "method": "forward",
+                "target": "self.pos_current",
+                "rename": {"self.pos_current": "pos_current", "self.dt": "dt", "self.tc_decay": "tc_decay",
+                           "self.tc_rise": "tc_rise", "self.spike_charge": "spike_charge", "inputs[0]": "x"},
+                "params": {"pos_current": R, "dt": R, "tc_decay": R, "tc_rise": R, "spike_charge": R, "x": R}},
+            "DoubleExponentialCurrent_neg_current": {
+                "file": "inferno/neural/synapses/expcurrent.py", "cls": "DoubleExponentialCurrent", "method": "forward",
+                "target": "self.neg_current",
+                "rename": {"self.neg_current": "neg_current", "self.dt": "dt", "self.tc_decay": "tc_decay",
+                           "self.tc_rise": "tc_rise", "self.spike_charge": "spike_charge", "inputs[0]": "x"},
+                "params": {"neg_current": R, "dt": R, "tc_decay": R, "tc_rise": R, "spike_charge": R, "x": R}},
+            "DoubleExponentialCurrent_current": {
+                "file": "inferno/neural/synapses/expcurrent.py", "cls": "DoubleExponentialCurrent", "method": "current",
+                "target": "return",
+                "rename": {"self.pos_current_.peek()": "pos", "self.neg_current_.peek()": "neg"},
+                "params": {"pos": R, "neg": R}},
+            "DeltaPlusCurrent_pulse": {
+                "file": "inferno/neural/synapses/current.py", "cls": "DeltaPlusCurrent", "method": "forward",
+                "target": "self.current", "peel": [("arg", "sum", 0), ("elt", 0)],
+                "rename": {"self.dt": "dt", "self.spike_charge": "spike_charge", "inputs[0]": "x"},
+                "params": {"x": R, "spike_charge": R, "dt": R}},
+            "DeltaCurrent_spike_to_current": {
+                "file": "inferno/neural/synapses/current.py", "cls": "DeltaCurrent", "method": "__init__",
+                "nested": "spike_to_current", "target": "return",
+                "rename": {"synapse.dt": "dt", "synapse.spike_charge": "spike_charge"},
+                "params": {"spikes": B, "spike_charge": R, "dt": R}},
+        },
+    },
+    "DelaySTDPSites": {
+        "sites": {
+            **{f"{cls}_{nm}": {
+                "file": f"inferno/learn/trainers/{fl}.py", "cls": cls, "method": "forward", "target": tgt, "peel": peel,
+                "rename": ren, "params": par}
+               for fl, cls, three in (("delay_adj_two_factor_stdp", "DelayAdjustedSTDP", False),
+                                      ("delay_adj_two_factor_stdp", "DelayAdjustedSTDPD", False),
+                                      ("delay_adj_three_factor_stdp", "DelayAdjustedMSTDP", True),
+                                      ("delay_adj_three_factor_stdp", "DelayAdjustedMSTDPD", True),
+                                      ("kernel_stdp", "DelayAdjustedKernelSTDP", None),
+                                      ("kernel_stdp", "DelayAdjustedKernelSTDPD", None),
+                                      ("kernel_stdp", "KernelSTDP", None))
+               for nm, tgt, peel, ren, par in (
+                   [("t_delta", "t_delta", [],
+                     ({} if cls == "KernelSTDP" else {"cell.connection.delay.unsqueeze(-1)": "delay"}),
+                     ({"t_pre": R, "t_post": R} if cls == "KernelSTDP" else {"t_pre": R, "t_post": R, "delay": R}))]
+                   + ([] if three is None else [
+                       ("t_delta_abs", "t_delta_abs", [], {}, {"t_delta": R}),
+                       ("term_a", ("dpost" if three else ("dneg" if cls.endswith("D") else "dpos")),
+                        ([("arg", "nansum", 0)] if three else ["batchreduce", "nansum"]),
+                        ({"state.tc_neg": "tc", "state.lr_neg": "lr"} if cls.endswith("D") else {"state.tc_pos": "tc", "state.lr_pos": "lr"}),
+                        {"t_delta": R, "t_delta_abs": R, "lr": R, "tc": R}),
+                       ("term_b", ("dpre" if three else ("dpos" if cls.endswith("D") else "dneg")),
+                        ([("arg", "nansum", 0)] if three else ["batchreduce", "nansum"]),
+                        ({"state.tc_pos": "tc", "state.lr_pos": "lr"} if cls.endswith("D") else {"state.tc_neg": "tc", "state.lr_neg": "lr"}),
+                        {"t_delta": R, "t_delta_abs": R, "lr": R, "tc": R}),
+                   ]))},
+        },
+    },
 }
